@@ -16,7 +16,10 @@ pub fn main(args: &[String]) {
         match format_guarded(&old, cfg, None) {
             Outcome::Ok(new) => {
                 println!("F {} ok {} {}", name, hex(old.as_bytes()), hex(new.as_bytes()));
-                let diff = TextDiff::from_lines(old.as_str(), new.as_str());
+                // lines end at `\n` only (as for the judge and for every tool that applies a diff): a lone `\r` inside a long string
+                // or comment is not a line break
+                let (ol, nl): (Vec<&str>, Vec<&str>) = (old.split_inclusive('\n').collect(), new.split_inclusive('\n').collect());
+                let diff = TextDiff::configure().newline_terminated(true).diff_slices(&ol, &nl);
                 let mut line = format!("OPS {}", name);
                 for op in diff.ops() {
                     match *op {
